@@ -434,6 +434,33 @@ def _keep(ctx, repo):
                 ok, why = False, "only unsubscribe_from_* and unregister_agent may shrink a subscription table"
             ctx.check(ok, "R-KEEP", f"Directory.{mname}: {op} on {tab}", f, node, why)
     ctx.floor("R-KEEP", 6)
+    # un-registration: the "unknown, nothing to do" exits test the very table the function goes on to shrink
+    for k in KINDS:
+        f = repo.func(MOD, f"Discovery.unregister_{k}")
+        shr = set()
+        for x in ast.walk(f.node):
+            if isinstance(x, ast.Call) and isinstance(x.func, ast.Attribute) and x.func.attr in _SHRINK:
+                r = x.func.value
+                while isinstance(r, ast.Subscript):
+                    r = r.value
+                if isinstance(r, ast.Attribute) and is_self_attr(r, r.attr) and r.attr.endswith("_data"):
+                    shr.add(r.attr)
+            elif isinstance(x, ast.Delete):
+                for t in x.targets:
+                    r = t
+                    while isinstance(r, ast.Subscript):
+                        r = r.value
+                    if isinstance(r, ast.Attribute) and is_self_attr(r, r.attr) and r.attr.endswith("_data"):
+                        shr.add(r.attr)
+        for st in f.node.body:
+            if isinstance(st, ast.If) and any(isinstance(y, ast.Return) for y in st.body) and isinstance(st.test, ast.Compare) and isinstance(st.test.ops[0], ast.NotIn):
+                tab = st.test.comparators[0]
+                while isinstance(tab, ast.Subscript):
+                    tab = tab.value
+                if isinstance(tab, ast.Attribute) and is_self_attr(tab, tab.attr) and tab.attr.endswith("_data"):
+                    ctx.check(tab.attr in shr, "R-KEEP", f"Discovery.unregister_{k}: `{norm(st.test)}` guards the table that is shrunk ({sorted(shr)})", f, st,
+                              f"the early exit tests `{tab.attr}` but the entry is removed from {sorted(shr)}: when the two tables disagree (e.g. the computation was forgotten "
+                              "locally during a repair while its replica entry is still there) the un-registration is skipped and the directory keeps a holder that holds nothing")
     cap = {"agent": "Agent", "computation": "Computation", "replica": "Replica"}
     data = {"agent": "_agents_data", "computation": "_computations_data", "replica": "_replicas_data"}
     for k in KINDS:
@@ -465,6 +492,7 @@ def _is_append_receiver(func_node, sub):
 
 _D = "pydcop/infrastructure/discovery.py"
 VARIANTS = [
+    ("unregister_replica_guarded_by_computation_table", _D, "        if replica not in self._replicas_data:\n            self.logger.info('Attempting to unregister an unknown '", "        if replica not in self._computations_data:\n            self.logger.info('Attempting to unregister an unknown '", "break", "R-KEEP"),
     ("register_agent_notifies_one_set_or_the_other", _D, "        for interested in self._subscription_agents[agent]:\n            self.directory_computation.notify_agent_registered(\n                interested, agent, address)\n        for interested in self._subscription_all_agents:\n",
      "        interested_agents = self._subscription_agents[agent] or \\\n            self._subscription_all_agents\n        for interested in interested_agents:\n", "break", "R-PROTO.d"),
     ("n_register_agent_notifies_union", _D, "        for interested in self._subscription_agents[agent]:\n            self.directory_computation.notify_agent_registered(\n                interested, agent, address)\n        for interested in self._subscription_all_agents:\n",
